@@ -203,4 +203,284 @@ Section ConcTear.
       subst t'. cbn [t_cont]. apply in_or_app. left. apply in_or_app. left. apply in_tear_node. apply child_is_node_lt. exact R.
     - intros q v L. apply data_lookup_remove_inv in L as (Hq & L). destruct (HD _ _ L) as [->|Hb]; [contradiction Hq; reflexivity|exact Hb].
   Qed.
+
+  (* ---- steps of the teardown ---- *)
+  Theorem exec_Tn s tid t m rest :
+    nth_error (c_threads s) tid = Some t -> t_cont t = m :: rest ->
+    Tn s -> c_torn s = true -> Tn (fst (exec_mop g s tid t m rest)).
+  Proof.
+    intros Ht Hc T NT _. destruct (T NT) as (F & Cov & Dat). clear T. unfold Covered in *.
+    destruct (nth_error_Forall _ _ _ _ F Ht) as (Re & Tops). rewrite Hc in Tops. cbn [forallb] in Tops.
+    apply andb_true_iff in Tops as [Tm Tr].
+    destruct t as [regs prog cont out]. cbn [t_cont] in Hc. subst cont. unfold regs_empty in Re. cbn [t_regs] in Re.
+    destruct m as [p i first keep|p i cand keep|delta after|h|r|r report|tb p i|p o]; cbn [tear_op] in Tm; try discriminate; cbn [exec_mop].
+    - (* an internal read-modify-write of the teardown *)
+      cbn [fst upd_thread c_torn c_slots c_data c_threads].
+      split; [|split; [|exact Dat]].
+      + apply Forall_set_nth; [exact F|]. split; [exact Re|exact Tr].
+      + intros q b L. destruct (Cov q b L) as (j & t0 & tb & p & i & rl & Ej & Hin & Eq & Ch).
+        destruct (Nat.eq_dec tid j) as [<-|Hne].
+        * rewrite Ht in Ej. injection Ej as <-. cbn [t_cont] in Hin. destruct Hin as [Hd|Hin]; [discriminate|].
+          eexists tid, _, tb, p, i, rl. split; [eapply nth_set_same; eauto|]. split; [exact Hin|]. split; [exact Eq|exact Ch].
+        * exists j, t0, tb, p, i, rl. split; [rewrite nth_set_other; auto|]. auto.
+    - (* a slot is torn down *)
+      rewrite NT. cbn [negb]. unfold tear_slot_events. set (x := i :: p).
+      assert (Keep : forall q b, slot_lookup (slot_remove (c_slots s) x) q = Some (ENode b) ->
+                forall more, (forall bx j0, slot_lookup (c_slots s) x = Some (ENode bx) -> (j0 < length (kids g x)) -> In (MTearSlot bx x j0) more) ->
+                exists j t0 tb' p' i' rl,
+                  nth_error (set_nth (c_threads s) tid (mkThread regs prog (more ++ rest) out)) j = Some t0 /\
+                  In (MTearSlot tb' p' i') (t_cont t0) /\ q = rev rl ++ i' :: p' /\ ChainR (slot_remove (c_slots s) x) (i' :: p') rl).
+      { intros q b L more Hmore. apply slot_lookup_remove_inv in L as (Hq & L).
+        destruct (Cov q b L) as (j & t0 & tb' & p' & i' & rl & Ej & Hin & Eq & Ch).
+        destruct (ChainR_remove_or (c_slots s) x rl (i' :: p') q Ch Eq Hq) as [Cl|(rl2 & N2 & E2 & C2)].
+        - (* the chain survives: is the covering operation still pending? *)
+          destruct (Nat.eq_dec tid j) as [<-|Hne].
+          + rewrite Ht in Ej. injection Ej as <-. cbn [t_cont] in Hin. destruct Hin as [Hd|Hin].
+            * (* it is the operation being executed: then the chain starts at x and needs the slot at x *)
+              injection Hd as <- <- <-. fold x in Cl, Eq. destruct rl as [|j0 rl']; [cbn [rev app] in Eq; contradiction|].
+              cbn [ChainR] in Cl. destruct Cl as ((b' & Lx) & _). rewrite slot_lookup_remove_same in Lx. discriminate.
+            * eexists tid, _, tb', p', i', rl. split; [eapply nth_set_same; eauto|]. cbn [t_cont].
+              split; [apply in_or_app; right; exact Hin|]. split; [exact Eq|exact Cl].
+          + exists j, t0, tb', p', i', rl. split; [rewrite nth_set_other; auto|]. auto.
+        - (* the chain passes through x: covered by the teardown of x's children *)
+          destruct rl2 as [|j0 rl2']; [contradiction N2; reflexivity|].
+          cbn [ChainR] in C2. destruct C2 as ((bx & Lx) & K & C3).
+          eexists tid, _, bx, x, j0, rl2'. split; [eapply nth_set_same; eauto|]. cbn [t_cont].
+          split; [apply in_or_app; left; apply Hmore; [exact Lx|apply child_is_node_lt; exact K]|].
+          split; [rewrite E2; cbn [rev]; rewrite <- app_assoc; reflexivity|].
+          apply ChainR_remove_below; [cbn [length]; lia|exact C3]. }
+      assert (DatOk : forall q v, data_lookup (data_remove (c_data s) x) q = Some v -> exists b, slot_lookup (slot_remove (c_slots s) x) q = Some (ENode b)).
+      { intros q v L. apply data_lookup_remove_inv in L as (Hq & L). destruct (Dat q v L) as (b & Lb). exists b.
+        rewrite slot_lookup_remove_other; auto. }
+      destruct (slot_lookup (c_slots s) x) as [[bx|pb]|] eqn:Lx; cbn [fst upd_thread c_torn c_slots c_data c_threads].
+      + split; [|split; [|exact DatOk]].
+        * apply Forall_set_nth; [exact F|]. split; [exact Re|]. cbn [t_cont]. rewrite !forallb_app, tear_op_tear_node. cbn [forallb tear_op andb]. exact Tr.
+        * intros q b L. apply (Keep q b L). intros bx' j0 E Hj. injection E as <-. apply in_or_app. left. apply in_tear_node. exact Hj.
+      + split; [|split; [|exact DatOk]].
+        * apply Forall_set_nth; [exact F|]. split; [exact Re|]. cbn [t_cont forallb tear_op app andb]. exact Tr.
+        * intros q b L. apply (Keep q b L). intros bx' j0 E Hj. discriminate.
+      + split; [|split; [|exact DatOk]].
+        * apply Forall_set_nth; [exact F|]. split; [exact Re|]. cbn [t_cont app]. exact Tr.
+        * intros q b L. apply (Keep q b L). intros bx' j0 E Hj. discriminate.
+  Qed.
+
+  Lemma normalize_Tn s : Tn s -> Tn (normalize g s).
+  Proof.
+    unfold Tn, normalize, Covered. cbn [c_torn c_slots c_data c_threads]. intros T NT. destruct (T NT) as (F & Cov & Dat).
+    split; [|split; [|exact Dat]].
+    - apply Forall_map. eapply Forall_impl; [|exact F]. intros t (Re & Tops).
+      destruct (refill_inert (S (length (t_prog t))) t Re) as (A & B). unfold regs_empty. rewrite A, B. auto.
+    - intros q b L. destruct (Cov q b L) as (j & t0 & tb & p & i & rl & Ej & Hin & Eq & Ch).
+      exists j, (refill g (S (length (t_prog t0))) t0), tb, p, i, rl. split; [rewrite nth_error_map, Ej; reflexivity|].
+      destruct (nth_error_Forall _ _ _ _ F Ej) as (Re & _).
+      destruct (refill_inert (S (length (t_prog t0))) t0 Re) as (A & _). rewrite A. auto.
+  Qed.
+
+  (* ---- everything together, for every reachable state ---- *)
+  Lemma fresh_no_blocks ms : forallb fresh_op ms = true -> cont_blocks ms = [].
+  Proof.
+    induction ms as [|m r IH]; cbn [forallb]; [reflexivity|].
+    intros E. apply andb_true_iff in E as [E1 E2]. unfold cont_blocks in *. cbn [flat_map]. rewrite (IH E2).
+    destruct m; cbn in E1; try discriminate; reflexivity.
+  Qed.
+
+  Lemma refill_blocks : forall fuel t, cont_blocks (t_cont (refill g fuel t)) = cont_blocks (t_cont t).
+  Proof.
+    induction fuel as [|f IH]; intros t; cbn [refill]; [reflexivity|].
+    destruct t as [regs prog cont out]. cbn [t_cont t_prog t_regs t_out].
+    destruct cont as [|m c]; [|reflexivity].
+    destruct prog as [|o r].
+    - destruct (first_owned regs 0); reflexivity.
+    - assert (Ex := expand_ok g (mkThread regs (o :: r) [] out) o).
+      destruct (expand g (mkThread regs (o :: r) [] out) o) as [ms res]. cbn [fst] in Ex.
+      rewrite IH. cbn [t_cont]. destruct Ex as [[P|(r0 & b & ->)] _]; [apply fresh_no_blocks; exact P|reflexivity].
+  Qed.
+
+  Lemma normalize_Claims s : Claims s -> Claims (normalize g s).
+  Proof.
+    unfold Claims, blocks, blocks_of, normalize. cbn [c_torn c_slots c_live c_freed c_next c_threads].
+    assert (E : thr_blocks (map (fun t => refill g (S (length (t_prog t))) t) (c_threads s)) = thr_blocks (c_threads s)).
+    { unfold thr_blocks. induction (c_threads s) as [|t l IH]; cbn [map flat_map]; [reflexivity|]. rewrite refill_blocks, IH. reflexivity. }
+    rewrite E. auto.
+  Qed.
+
+  Definition Good (s : cstate) : Prop := Pre s /\ HInv s /\ Wf g s /\ Tn s /\ Claims s.
+
+  Lemma init_Good progs : Good (cinit g progs).
+  Proof.
+    split; [apply init_Pre|]. split; [apply init_HInv|]. split; [apply init_Wf|]. split.
+    - intros T. unfold cinit, normalize in T. cbn [c_torn] in T. discriminate.
+    - unfold cinit. apply normalize_Claims. unfold Claims, blocks, blocks_of. cbn [c_torn c_slots c_live c_freed c_next c_threads].
+      assert (E : thr_blocks (map (fun p => mkThread [Some ([], ENode 0)] p [] []) progs) = []).
+      { unfold thr_blocks. induction progs as [|p l IH]; cbn [map flat_map]; auto. }
+      rewrite E. cbn [slot_blocks flat_map app]. constructor.
+      + constructor; [intros []|constructor].
+      + intros b. tauto.
+      + constructor; [intros []|constructor].
+      + intros b [<-|[]]. lia.
+      + constructor.
+      + constructor.
+      + intros b [].
+  Qed.
+
+  Lemma cstep_Good s want s' tid evs : Good s -> cstep g s want = Some (s', tid, evs) -> Good s'.
+  Proof.
+    intros (P & I & W & T & C) St. destruct (cstep_inv g _ _ _ _ _ St) as (t & m & rest & Ht & Hc & -> & _).
+    assert (P' := exec_Pre g s tid t m rest Ht Hc P).
+    destruct (c_torn s) eqn:NT.
+    - (* the teardown is running *)
+      assert (NT' := exec_torn_stays g s tid t m rest NT).
+      destruct (T NT) as (F & _). destruct (nth_error_Forall _ _ _ _ F Ht) as (_ & Tops). rewrite Hc in Tops. cbn [forallb] in Tops.
+      apply andb_true_iff in Tops as [Tm _].
+      split; [apply normalize_Pre; exact P'|]. split; [|split; [|split]].
+      + intros D. unfold normalize in D. cbn [c_torn] in D. congruence.
+      + intros D. unfold normalize in D. cbn [c_torn] in D. congruence.
+      + apply normalize_Tn. apply exec_Tn; auto.
+      + apply normalize_Claims. apply exec_Claims; auto. intros _. destruct m; cbn in Tm; try discriminate; reflexivity.
+    - assert (I' := exec_HInv g s tid t m rest Ht Hc I NT).
+      assert (W' : Wf g (fst (exec_mop g s tid t m rest))) by (apply exec_Wf; auto).
+      split; [apply normalize_Pre; exact P'|]. split; [apply normalize_HInv; exact I'|]. split; [apply normalize_Wf; auto|]. split.
+      + apply normalize_Tn. intros NT'.
+        destruct (exec_torn_flip g s tid t m rest NT NT') as (r & b & -> & E1 & Hr).
+        apply (flip_Tn s tid t r b rest P W NT Ht Hc Hr E1 NT').
+      + apply normalize_Claims. apply exec_Claims; auto. intros D. congruence.
+  Qed.
+
+  Theorem reach_Good progs s : Reach g progs s -> Good s.
+  Proof. induction 1 as [|s want s' tid evs _ IH C]; [apply init_Good|eapply cstep_Good; eauto]. Qed.
+
+  (* ---- the count stays positive until the teardown ---- *)
+  Definition RcPos (s : cstate) : Prop := c_torn s = false -> (c_rc s >= 1)%Z.
+
+  Lemma exec_RcPos s tid t m rest :
+    nth_error (c_threads s) tid = Some t -> t_cont t = m :: rest -> Pre s -> RcPos s -> RcPos (fst (exec_mop g s tid t m rest)).
+  Proof.
+    intros Ht Hc P R NT'. destruct (c_torn s) eqn:NT; [rewrite (exec_torn_stays g s tid t m rest NT) in NT'; discriminate|].
+    specialize (R NT). destruct (P NT) as (E & F).
+    assert (W : Forall (fun t => (weight t >= 0)%Z) (c_threads s)).
+    { eapply Forall_impl; [|exact F]. intros x (Hnn & _ & _). unfold weight. assert (A := owned_nonneg x). assert (B := NN_debt _ Hnn). lia. }
+    assert (Wt := sumT_ge_one weight _ tid t W Ht). rewrite <- sumT_weight in E. rewrite <- E in Wt.
+    destruct (nth_error_Forall _ _ _ _ F Ht) as (Hnn & _ & Hbusy).
+    assert (Ot : (owned t >= 1)%Z) by (apply Hbusy; rewrite Hc; discriminate).
+    unfold weight in Wt. rewrite Hc in Wt, Hnn.
+    revert NT'. destruct t as [regs prog cont out].
+    destruct m as [p i first keep|p i cand keep|delta after|h|r|r report|tb p i|p o]; cbn [exec_mop].
+    - destruct (slot_lookup (c_slots s) (i :: p)); [|destruct (child_is_node g p i)]; cbn [fst upd_thread c_torn c_rc]; intros _; exact R.
+    - destruct (slot_lookup (c_slots s) (i :: p)); cbn [fst upd_thread c_torn c_rc]; intros _; exact R.
+    - cbn [fst upd_thread c_torn c_rc]. intros _. cbn [debt] in Wt. assert (D := NN_debt _ (NN_tail _ _ Hnn)). lia.
+    - cbn [fst upd_thread c_torn c_rc]. intros _. lia.
+    - destruct (reg_of _ r); cbn [fst upd_thread c_torn c_rc]; intros _; lia.
+    - destruct (reg_of _ r); [destruct (Z.eqb (c_rc s) 1) eqn:E1|]; cbn [fst upd_thread c_torn c_rc]; try discriminate; intros _; [|exact R].
+      apply Z.eqb_neq in E1. lia.
+    - rewrite NT. cbn [negb fst upd_thread c_torn c_rc]. intros _. exact R.
+    - destruct (match o with KSet _ v => _ | KTrySet _ v => _ | KGet _ => _ | KClear _ => _ | _ => _ end) as [[[d' dr] res] w].
+      cbn [fst upd_thread c_torn c_rc]. intros _. exact R.
+  Qed.
+
+  Theorem reach_RcPos progs s : progs <> [] -> Reach g progs s -> RcPos s.
+  Proof.
+    intros Hp. induction 1 as [|s want s' tid evs R IH C].
+    - intros _. unfold cinit, normalize. cbn [c_rc]. destruct progs; [contradiction Hp; reflexivity|]. cbn [length]. lia.
+    - destruct (cstep_inv g _ _ _ _ _ C) as (t & m & rest & Ht & Hc & -> & _).
+      intros NT'. unfold normalize in *. cbn [c_torn c_rc] in *.
+      apply (exec_RcPos s tid t m rest Ht Hc (reach_Pre g progs s R) IH NT').
+  Qed.
+
+  (* ---- final theorems ---- *)
+  Lemma all_done_conts s : all_done s = true -> Forall (fun t => t_cont t = [] /\ owned t = 0%Z) (c_threads s).
+  Proof.
+    unfold all_done. rewrite forallb_forall. intros H. apply Forall_forall. intros t Hin. specialize (H t Hin).
+    unfold thread_done in H. destruct (t_cont t); [|discriminate]. destruct (t_prog t); [|discriminate].
+    destruct (first_owned (t_regs t) 0) eqn:Ef; [discriminate|]. split; [reflexivity|].
+    unfold owned. clear - Ef. revert Ef. generalize 0. induction (t_regs t) as [|a l IH]; intros n Ef; cbn [first_owned filter] in *; [reflexivity|].
+    destruct a; [discriminate|]. eapply IH; eauto.
+  Qed.
+
+  Lemma sumT_zero f l : Forall (fun t => f t = 0%Z) l -> sumT f l = 0%Z.
+  Proof. induction 1 as [|t l E _ IH]; cbn [sumT]; lia. Qed.
+
+  Lemma no_node_slots_no_blocks sl : NoDup (map fst sl) -> (forall q b, slot_lookup sl q <> Some (ENode b)) -> slot_blocks sl = [].
+  Proof.
+    induction sl as [|[q e] r IH]; intros N H; [reflexivity|]. cbn [map fst] in N. inversion N as [|? ? Hq Nr]; subst.
+    unfold slot_blocks. cbn [flat_map snd]. fold (slot_blocks r).
+    assert (He : forall b, e <> ENode b).
+    { intros b ->. apply (H q b). cbn [slot_lookup]. rewrite pos_eqb_refl. reflexivity. }
+    rewrite IH; [destruct e; [exfalso; eapply He; reflexivity|reflexivity]|exact Nr|].
+    intros q' b L. apply (H q' b). cbn [slot_lookup]. destruct (pos_eqb q q') eqn:E; [|exact L].
+    apply pos_eqb_eq in E. subst q'. exfalso. apply Hq. apply slot_lookup_none_keys_contra with (e := ENode b). exact L.
+  Qed.
+
+  (* when every thread is done — whatever the programs and the schedule — the tree has been torn
+     down, every block has been freed, and no node datum is left *)
+  Definition no_node_slot (s : cstate) : Prop := forall q b, slot_lookup (c_slots s) q <> Some (ENode b).
+
+  Theorem no_leak progs s :
+    progs <> [] -> Reach g progs s -> all_done s = true ->
+    c_torn s = true /\ c_live s = [] /\ c_data s = [] /\ no_node_slot s.
+  Proof.
+    intros Hp R D. destruct (reach_Good _ _ R) as (P & _ & _ & T & C).
+    assert (A := all_done_conts s D).
+    assert (Torn : c_torn s = true).
+    { destruct (c_torn s) eqn:NT; [reflexivity|]. exfalso.
+      assert (Rp := reach_RcPos progs s Hp R NT). destruct (P NT) as (E & _).
+      rewrite (sumT_zero owned), (sumT_zero (fun t => debt (t_cont t))) in E; [lia| |].
+      - eapply Forall_impl; [|exact A]. intros t (-> & _). reflexivity.
+      - eapply Forall_impl; [|exact A]. cbn beta. tauto. }
+    destruct (T Torn) as (_ & Cov & Dat).
+    assert (NoSlot : no_node_slot s).
+    { intros q b L. destruct (Cov q b L) as (j & t0 & tb & p & i & rl & Ej & Hin & _).
+      destruct (nth_error_Forall _ _ _ _ A Ej) as (E0 & _). rewrite E0 in Hin. destruct Hin. }
+    split; [exact Torn|]. split; [|split; [|exact NoSlot]].
+    - (* nothing claims a block any more *)
+      destruct C as [_ L _ _ K _ _]. unfold blocks, blocks_of in L. rewrite Torn in L.
+      rewrite (no_node_slots_no_blocks _ K NoSlot) in L.
+      assert (E : thr_blocks (c_threads s) = []).
+      { unfold thr_blocks. clear - A. induction A as [|t l (E0 & _) _ IH]; cbn [flat_map]; [reflexivity|]. rewrite E0, IH. reflexivity. }
+      rewrite E in L. cbn [app] in L. destruct (c_live s) as [|b l]; [reflexivity|]. exfalso. apply (proj1 (L b)). left. reflexivity.
+    - destruct (c_data s) as [|[q v] d] eqn:Ed; [reflexivity|]. exfalso.
+      destruct (Dat q v) as (b & L); [cbn [data_lookup]; rewrite pos_eqb_refl; reflexivity|]. exact (NoSlot q b L).
+  Qed.
+
+  (* never twice, and only what is live: the freed blocks are pairwise different and none of them is
+     live; every live block is claimed exactly once (by the root, an initialised slot, a candidate
+     about to be installed, or a queued free) *)
+  Theorem free_once progs s :
+    Reach g progs s ->
+    NoDup (c_freed s) /\ (forall b, In b (c_freed s) -> ~ In b (c_live s)) /\
+    NoDup (blocks s) /\ (forall b, In b (c_live s) <-> In b (blocks s)).
+  Proof.
+    intros R. destruct (reach_Good _ _ R) as (_ & _ & _ & _ & [N L _ _ _ F FD]).
+    split; [exact F|]. split; [intros b Hb; exact (proj1 (FD b Hb))|]. split; [exact N|exact L].
+  Qed.
+
+  (* identity: while the tree is alive a block stands for one position, and no slot shares the root's block *)
+  Lemma slot_blocks_in sl p b : slot_lookup sl p = Some (ENode b) -> In b (slot_blocks sl).
+  Proof.
+    induction sl as [|[q e] r IH]; cbn [slot_lookup]; [discriminate|]. unfold slot_blocks. cbn [flat_map snd]. fold (slot_blocks r).
+    destruct (pos_eqb q p); [intros [= ->]; left; reflexivity|]. intros L. apply in_or_app. right. apply IH. exact L.
+  Qed.
+
+  Lemma slot_blocks_inj sl : NoDup (slot_blocks sl) -> forall p1 p2 b,
+    slot_lookup sl p1 = Some (ENode b) -> slot_lookup sl p2 = Some (ENode b) -> p1 = p2.
+  Proof.
+    induction sl as [|[q e] r IH]; intros N p1 p2 b L1 L2; [discriminate|].
+    unfold slot_blocks in N. cbn [flat_map snd] in N. fold (slot_blocks r) in N. cbn [slot_lookup] in L1, L2.
+    destruct (NoDup_app_inv _ _ N) as (_ & Nr & Dj).
+    destruct (pos_eqb q p1) eqn:E1, (pos_eqb q p2) eqn:E2.
+    - apply pos_eqb_eq in E1, E2. congruence.
+    - injection L1 as ->. exfalso. apply (Dj b); [left; reflexivity|eapply slot_blocks_in; eauto].
+    - injection L2 as ->. exfalso. apply (Dj b); [left; reflexivity|eapply slot_blocks_in; eauto].
+    - eapply IH; eauto.
+  Qed.
+
+  Theorem block_identity progs s p1 p2 b :
+    Reach g progs s -> c_torn s = false ->
+    slot_lookup (c_slots s) p1 = Some (ENode b) -> slot_lookup (c_slots s) p2 = Some (ENode b) ->
+    p1 = p2 /\ b <> 0.
+  Proof.
+    intros R NT L1 L2. destruct (reach_Good _ _ R) as (_ & _ & _ & _ & [N _ _ _ _ _ _]).
+    unfold blocks, blocks_of in N. rewrite NT in N. cbn [app] in N. inversion N as [|? ? H0 N2]; subst.
+    destruct (NoDup_app_inv _ _ N2) as (Ns & _ & _). split; [eapply slot_blocks_inj; eauto|].
+    intros ->. apply H0. apply in_or_app. left. eapply slot_blocks_in; eauto.
+  Qed.
 End ConcTear.
